@@ -11,6 +11,11 @@ Inductive case :=
    the replicator route) does not describe: only the specification is evaluated; [d_before] is
    what a restart yields without the hostile heads *)
 | CMutCached (d : delivery) (mismatch : bool)
+(* the delivery reached the victim as an ancestor of a writer's head; then the victim was closed,
+   reopened and loaded from its cache: [d_after] is the state after that reload.  Specification
+   only, and without the frame condition (Load joins a cached head's whole fetched log at once,
+   so a genuine entry above a rejected one is not reloaded: see DESIGN A.12) *)
+| CMutReloaded (d : delivery) (mismatch : bool)
 (* the same inside the snapshot file loaded by LoadFromSnapshot after a restart (see
    AccessCorr: the snapshot route): specification only.  [mismatch] = the file states an
    address for the target that its content does not hash to; the state after the load is
@@ -32,6 +37,12 @@ Definition check (c : case) : bool * bool :=
     (agree_step c03_binds_identity_current c04_filters_foreign_current d,
      match target_entry d with
      | Some e => (if bad_b d mismatch e then negb (present d) || held_before d else true) && frame d
+     | None => true
+     end)
+  | CMutReloaded d mismatch =>
+    (true,
+     match target_entry d with
+     | Some e => if bad_b d mismatch e then negb (present d) || held_before d else true
      | None => true
      end)
   | CMutCached d mismatch =>
